@@ -205,13 +205,24 @@ func (c *XCase) runHistory(fs *vfs.FS, o *opt.Options, st *xStats) (issued []*mo
 				v.Raw = false
 				val := v.Bytes(tag(j))
 				b.Ops = []model.BOp{{K: string(k), V: string(val)}}
+				if j%2 == 1 {
+					// every other writer goes through DB.Write with a two-record batch
+					b.Ops = append(b.Ops, model.BOp{K: string(k) + "'", V: string(val)})
+				}
 				bs[j] = b
 				issued = append(issued, b)
 				wg.Add(1)
 				go func(j int, k, val []byte, sync bool) {
 					defer wg.Done()
 					started <- struct{}{}
-					errs[j] = db.Put(k, val, &opt.WriteOptions{Sync: sync})
+					if j%2 == 1 {
+						lb := new(leveldb.Batch)
+						lb.Put(k, val)
+						lb.Put(append(append([]byte{}, k...), '\''), val)
+						errs[j] = db.Write(lb, &opt.WriteOptions{Sync: sync})
+					} else {
+						errs[j] = db.Put(k, val, &opt.WriteOptions{Sync: sync})
+					}
 					if errs[j] == nil && sync && !fs.Crashed() {
 						bs[j].Mandatory = true
 					}
